@@ -170,7 +170,8 @@ def body_for(k, first_op, second_op=None, pre=False):
                     node.set_pipeline_stage(cfg, P[f"s{i}"])
                 elif op == "add_configuration":
                     name = ["cfg2", "cfg0", ""][operator.index(c) % 3]
-                    m.add_device_configuration(name, num_devices=b)
+                    # the device count is concretised (one path per value of the range): later requests index devices by it
+                    m.add_device_configuration(name, num_devices=operator.index(b))
                 elif op == "remove_configuration(cascade)":
                     if cfgs:
                         cfg = cfgs[operator.index(c) % len(cfgs)]
